@@ -171,6 +171,57 @@ def run(ctx: Ctx) -> None:
     asm_rule(ctx)
 
 
+def num_rule(ctx: Ctx) -> None:
+    """Every operand spelling the TOY grammar accepts converts to its documented value: decimal tokens
+    (leading zeros allowed by the grammar) are read in base 10, 0x tokens in base 16 after the prefix."""
+    from ..ppgram import GrammarEval, Langs, find_named, int_accept, NUMS, seq, lit, G, alt
+    m = ctx.model
+    r = ctx.rule("R19.num", "TOY operand literals: every accepted spelling converts (decimal base 10, 0x.. base 16)")
+    pc = m.cls("ToyParser")
+    ge = GrammarEval(m, pc)
+    f = m.method(pc, "_value_to_int", own=True)
+    line = ge.get("_pattern_line")
+    srcs = find_named(line, "address") + [x.items[0] for x in find_named(line, "values") if x.kind == "dlist"]
+    if not srcs:
+        raise AnalysisError("R19.num: TOY value tokens not found in the grammar")
+    src = srcs[0] if len(srcs) == 1 else alt(srcs, False)
+    arg = f.params[1]
+    iff = next((n for n in f.node.body if isinstance(n, ast.If) and ast.unparse(n.test) == f"{arg}.startswith('0x')"), None)
+    if iff is None:
+        raise AnalysisError("anchor vanished: the 0x split in ToyParser._value_to_int")
+
+    def conv(blk):
+        for n in ast.walk(ast.Module(body=blk, type_ignores=[])):
+            if isinstance(n, ast.Call) and (ast.unparse(n.func) == "int" or ast.unparse(n.func).endswith("._literal_to_int")):
+                base = 10 if ast.unparse(n.func) == "int" else 0
+                for k in n.keywords:
+                    if k.arg == "base" and isinstance(k.value, ast.Constant):
+                        base = k.value.value
+                if ast.unparse(n.func) == "int" and len(n.args) > 1 and isinstance(n.args[1], ast.Constant):
+                    base = n.args[1].value
+                a0 = n.args[0]
+                strip = a0.slice.lower.value if isinstance(a0, ast.Subscript) and isinstance(a0.slice, ast.Slice) and isinstance(a0.slice.lower, ast.Constant) else 0
+                return base, strip
+        return None, 0
+
+    for label, blk, keep in (("hexadecimal", iff.body, True), ("decimal", iff.orelse, False)):
+        base, strip = conv(blk)
+        if base is None:
+            r.check(False, f"_value_to_int|{label}", f.loc(), f"no conversion found for {label} operands")
+            continue
+        acc = int_accept(base)
+        L = Langs([src, acc], extra_chars="0x")
+        d = L.with_prefix(L.dfa(src), "0x", keep)
+        if strip:
+            d = L.quotient(d, "0x"[:strip])
+        w = L.witness_not_in(d, L.dfa(acc))
+        want_base = 16 if keep else 10
+        r.check(w is None and base == want_base and (strip == 2) == keep, f"_value_to_int|{label}", f.loc(),
+                f"{label} operands are converted with base {base} after stripping {strip} character(s); "
+                + (f"the accepted spelling {('0x' if keep and strip else '') + (w or '')!r} would be rejected or misread" if w is not None else
+                   f"documented: base {want_base}"), {"base": base, "strip": strip})
+
+
 def fields_rule(ctx: Ctx, rid: str = "R19.fields") -> None:
     m = ctx.model
     r = ctx.rule(rid, "opcode occupies bits [12,16), address bits [0,12), in both directions")
@@ -278,6 +329,28 @@ def asm_rule(ctx: Ctx, rid: str = "R19.asm") -> None:
             and "write_address += 1" in dtxt, "ToyParser._write_data|downward", wd.loc(),
             "variables are not allocated downward with ascending elements")
     r.check("if write_address < 0: raise " in dtxt, "ToyParser._write_data|overflow", wd.loc(), "data overflow is not rejected")
+    # operand resolution: `label` is also bound by an in-line label declaration, so the operand may only be
+    # read from tokens.label when no numeric operand was given
+    from ..guards import facts_of
+    from ..paths import function_paths, event_exprs
+    n_lab = 0
+    for p_ in function_paths(li.node):
+        facts: set = set()
+        for e in p_.events:
+            if e.kind == "test":
+                facts |= facts_of(e.node, bool(e.pol))
+            for x in event_exprs(e):
+                for sb in ast.walk(x):
+                    if isinstance(sb, ast.Subscript) and ast.unparse(sb.value) == "self.labels" and ast.unparse(sb.slice) == "tokens.label":
+                        n_lab += 1
+                        ok = ("tokens.address", False) in facts
+                        if not ok:
+                            r.viol("ToyParser._load_instructions|operand-kind", li.loc(sb), "the operand is taken from tokens.label without first "
+                                   "establishing that no numeric operand was given; an in-line label declaration binds the same results name, "
+                                   "so `x: ADD 5` would be assembled with the address of x", p_.labels()[:8])
+                            break
+    r.check(n_lab > 0, "ToyParser._load_instructions|label-operand", li.loc(), "label operands are no longer resolved through self.labels")
+    num_rule(ctx)
     # parse order: labels before data and instructions, so segment order is irrelevant
     pa = m.method(p, "parse", own=True)
     order = [c.func.attr for c in calls_in(pa.node) if isinstance(c.func, ast.Attribute) and c.func.attr.startswith("_")]
